@@ -3,13 +3,14 @@
 # suite still passes (96 baseline tests), demo.sh exits 0 unpatched and 1 patched.  Validated mutants are copied to
 # /verif/seeded/<prop>-m<k>/.
 set -u
-OUT=/tmp/wtout
+OUT=${SEED_OUT:-/tmp/wtout}
+PFX=${SEED_PREFIX:-}
 BASE=$(python3 -c "import json;print('\n'.join(json.load(open('/root/.vp/BASELINE.json'))['stable_pass']))" | sort)
 one() {
   p=$1; k=$2
   src=$OUT/$p/$k
   [ -f $src/patch.diff ] || { echo "$p-$k: no patch"; return; }
-  id=$p-$k
+  id=$PFX$p-$k
   work=/tmp/mr/$id
   rm -rf $work; mkdir -p /tmp/mr; cp -r /repo $work; rm -rf $work/.git
   (cd $work && git init -q . && git add -A >/dev/null 2>&1 && git commit -qm base >/dev/null 2>&1)
@@ -47,4 +48,5 @@ PY
 }
 export -f one
 if [ $# -gt 0 ]; then for x in "$@"; do one ${x%-*} ${x#*-}; done; exit; fi
-for p in C01 C02 C03 C04 C05 C06 C07 C08 C09 C10 C11 C12 C13 C14 C15 C16 C17 C18 C19 C20; do for k in m1 m2; do echo "$p $k"; done; done | xargs -P 4 -L 1 bash -c 'OUT=/tmp/wtout BASE="$(python3 -c "import json;print(chr(10).join(json.load(open(\"/root/.vp/BASELINE.json\"))[\"stable_pass\"]))" | sort)"; one $0 $1'
+export OUT PFX
+for p in C01 C02 C03 C04 C05 C06 C07 C08 C09 C10 C11 C12 C13 C14 C15 C16 C17 C18 C19 C20; do for k in m1 m2; do echo "$p $k"; done; done | xargs -P 4 -L 1 bash -c 'BASE="$(python3 -c "import json;print(chr(10).join(json.load(open(\"/root/.vp/BASELINE.json\"))[\"stable_pass\"]))" | sort)"; one $0 $1'
